@@ -262,6 +262,10 @@ Gen(T) ==
          \cup UNION { { MkDict(<< <<MkStr(T.fs[i].ins[j]), m1(i)>> >>) : j \in DOMAIN T.fs[i].ins } : i \in DOMAIN T.fs }
          \cup UNION { { MkDict(<< <<MkStr(T.fs[i].ins[1]), m1(i)>>, <<MkStr(T.fs[i].ins[j]), m1(i)>> >>) :
                          j \in (DOMAIN T.fs[i].ins) \ {1} } : i \in DOMAIN T.fs }
+         \* ... and a duplicate one of whose occurrences does not convert (first / second)
+         \cup UNION { UNION { { MkDict(<< <<MkStr(T.fs[i].ins[1]), MkDict(<<>>)>>, <<MkStr(T.fs[i].ins[j]), m1(i)>> >>),
+                                 MkDict(<< <<MkStr(T.fs[i].ins[1]), m1(i)>>, <<MkStr(T.fs[i].ins[j]), MkDict(<<>>)>> >>) } :
+                               j \in (DOMAIN T.fs[i].ins) \ {1} } : i \in DOMAIN T.fs }
          \cup { MkDict(Repl(base, 1, <<MkStr(T.fs[i].n), m1(i)>>)) : i \in DOMAIN T.fs }
          \cup { MkDict(Repl(base, 1, <<MkStr(T.fs[i].out), m1(i)>>)) : i \in DOMAIN T.fs }
          \cup { MkDict(Append(base, <<MkStr(T.fs[i].n), m1(i)>>)) : i \in {j \in DOMAIN T.fs : T.fs[j].init = "F"} }
